@@ -1,7 +1,20 @@
 import SigpyVerif.Model.Py
 import SigpyVerif.Model.Proto
 import SigpyVerif.Model.C01Proto
+import SigpyVerif.Gen.LinopAdjoint
 namespace SigpyVerif.Drv.C01
-/-- protocol handler for property C01 (tokens after the property id). -/
-def handle (toks : List String) : String := SigpyVerif.C01.Proto.handle toks
+open SigpyVerif SigpyVerif.Proto SigpyVerif.C01
+/-- protocol handler for property C01 (tokens after the property id).
+    `findiff <shape> <normalised axes>`: the tree generated from the source of `FiniteDifference`
+    (Gen/LinopAdjoint.lean), answered like `mats`. -/
+def handle (toks : List String) : String :=
+  match toks with
+  | ["findiff", sh, ax] =>
+    match parseIntList? sh, parseIntList? ax with
+    | some s, some a =>
+      match Gen.LinopAdjoint.finiteDifference (⟨-1, 0⟩ : GRat) s a with
+      | some e => SigpyVerif.C01.Proto.matsReply e
+      | none => "err build"
+    | _, _ => "err bad-op"
+  | _ => SigpyVerif.C01.Proto.handle toks
 end SigpyVerif.Drv.C01
